@@ -257,15 +257,34 @@ def gen_boxed(rng, cli, vocab, depth):
 def gen_request(rng, cli, vocab):
     """(handler, boxed args)"""
     H = rc.HANDLERS
+    last = vocab.get("last")
+    if last is not None and rng.random() < .3:
+        # stateful follow-up: the same object and the same name as in the previous request, through another operation
+        # (probe, then exploit: anything the connection remembers about a name must not outlive the operation it was for)
+        o, n = last
+        h = rng.choice(["GETATTR", "SETATTR", "DELATTR", "CALLATTR", "CMP", "SETATTR", "DELATTR"])
+        if h == "GETATTR":
+            return H[h], (rc.LABEL_TUPLE, (o, n))
+        if h == "SETATTR":
+            return H[h], (rc.LABEL_TUPLE, (o, n, (rc.LABEL_VALUE, "pwned")))
+        if h == "DELATTR":
+            return H[h], (rc.LABEL_TUPLE, (o, n))
+        if h == "CALLATTR":
+            return H[h], (rc.LABEL_TUPLE, (o, n, (rc.LABEL_VALUE, ()), (rc.LABEL_VALUE, ())))
+        return H["CMP"], (rc.LABEL_TUPLE, (o, o, n))
 
     def obj():
-        return (rc.LABEL_LOCAL_REF, gen_idpack(rng, cli, vocab))
+        o = (rc.LABEL_LOCAL_REF, gen_idpack(rng, cli, vocab))
+        vocab["_o"] = o
+        return o
 
     def val(v):
         return (rc.LABEL_VALUE, v)
 
     def name():
-        return val(rng.choice(ATTR_VOCAB))
+        n = val(rng.choice(ATTR_VOCAB))
+        vocab["_n"] = n
+        return n
 
     def T(*items):
         return (rc.LABEL_TUPLE, tuple(items))
@@ -370,7 +389,7 @@ def session(ctx, rng, idx, vocab_base):
     g = object.__getattribute__
     hidden_objs = [g(svc, "vault"), g(svc, "items")[2], g(sib_svc, "items")[0], g(sib_svc, "vault"), svc.__class__, sys, builtins]
     forged = [get_id_pack(o) for o in hidden_objs] + [("builtins.module", id(type(sys)), id(os)), ("x.Y", 1, id(g(svc, "vault")))]
-    vocab = dict(vocab_base, sibling_ids=sibling_ids, forged_ids=forged, root_id=[])
+    vocab = dict(vocab_base, sibling_ids=sibling_ids, forged_ids=forged, root_id=[], last=None)
     before = state_snapshot(svc)
     secrets_before = set(SECRETS)
     th = threading.Thread(target=serve, daemon=True)
@@ -388,11 +407,14 @@ def session(ctx, rng, idx, vocab_base):
             if b.closed or net.a.closed:
                 ended = True
                 break
-            c = rng.randrange(10) if rng.random() < .15 else 0
+            c = rng.randrange(10) if rng.random() < .06 else 0
             cli.seq += 1
             seq = cli.seq if rng.random() < .9 else rng.choice([0, 1, -1, 10 ** 12, "s", None, cli.seq - 1])
             if c < 8:
+                vocab.pop("_o", None), vocab.pop("_n", None)
                 handler, boxed = gen_request(rng, cli, vocab)
+                if "_o" in vocab and "_n" in vocab:
+                    vocab["last"] = (vocab["_o"], vocab["_n"])
                 msg = (rc.MSG_REQUEST, seq, (handler, boxed))
             elif c == 8:
                 msg = (rng.choice([rc.MSG_REPLY, rc.MSG_EXCEPTION]), seq, rng.choice([gen_boxed(rng, cli, vocab, 0), gen.gen_exc_payload(rng, vocab)]))
